@@ -811,8 +811,9 @@ def gen_big_case(rng, focus, tr):
         is_sim = st["acts"] not in ("absent", "empty") and st["rw"] != "absent"
         if attempt < 15:
             if need_sim and not is_sim: continue
-            # feedbacks are functions of the action: they can only be compared on actions they can be evaluated on
-            if focus == "Grounded" and not st.get("hashable"): continue
+            # feedbacks are functions of the action: they can only be compared on actions they can be evaluated on (hashable
+            # ones); the bandit learners that Logged uses index their statistics by action
+            if focus in ("Grounded", "Logged") and not st.get("hashable"): continue
         chain = []
         for _ in range(rng.choice([0, 0, 1, 2])):
             f = gen_filter(rng, st)
